@@ -3,4 +3,78 @@ coq/Raft, correspondence of that model with the implementation, runtime monitor 
 from props import raftcommon as R
 
 PROPS = ('C02',)
-correspondence, search, replay = R.standard_module('C02', PROPS)
+_corr, search, replay = R.standard_module('C02', PROPS)
+
+# ---- "(or a sync call) reports SUCCESS with result r": a synchronous call returns the result of ITS OWN command --------
+SYNC_PROBE = r'''
+import sys, json, time, threading
+sys.path.insert(0, %r)
+import pysyncobj.syncobj as S
+from harness import queue_threads as Q
+from pysyncobj import SyncObjConf
+Obj = Q.make_class(S)
+out = []
+for rounds in (1, 2):
+    o = Obj(SyncObjConf(autoTick=False))
+    t0 = time.time()
+    while not o._isLeader() and time.time() - t0 < 10:
+        o.doTick(0.05)
+    res = {'rounds': rounds, 'calls': []}
+    x = 10
+    for r in range(rounds):
+        try:                                  # nobody ticks: the call gives up, its command stays queued
+            v = o.add(x, sync=True, timeout=0.15)
+            res['calls'].append(['first', x, 'returned', v])
+        except Exception as e:
+            res['calls'].append(['first', x, 'raised', repr(e) + ' ' + repr(getattr(e, 'errorCode', None))])
+        x += 1
+    stop = []
+    def ticker():
+        while not stop:
+            o.doTick(0.01)
+    th = threading.Thread(target=ticker)
+    th.start()
+    try:                                      # same thread, next synchronous call, now the node ticks
+        v = o.add(x, sync=True, timeout=5)
+        res['calls'].append(['next', x, 'returned', v])
+    except Exception as e:
+        res['calls'].append(['next', x, 'raised', repr(e) + ' ' + repr(getattr(e, 'errorCode', None))])
+    time.sleep(0.2)
+    stop.append(1)
+    th.join()
+    res['applied'] = list(o.applied)
+    res['own_results'] = dict((str(k), v) for k, v in o.results.items())
+    out.append(res)
+    o.destroy()
+print(json.dumps(out))
+'''
+
+
+def sync_timeout_probe(ctx):
+    import json, subprocess, sys
+    from vlib import coq
+    from vlib.ctx import impl_env
+    p = subprocess.run([sys.executable, '-c', SYNC_PROBE % coq.VERIF], cwd=coq.VERIF, env=impl_env(), stdout=subprocess.PIPE,
+                       stderr=subprocess.PIPE, text=True, timeout=200)
+    if p.returncode != 0:
+        ctx.obligation('sync-call-probe-ran', False, p.stderr[-800:])
+        return
+    res = json.loads(p.stdout.strip().split('\n')[-1])
+    ctx.monitor['sync_timeout_probe'] = res
+    for r in res:
+        for kind, x, how, v in r['calls']:
+            own = r['own_results'].get(str(x), [])
+            if how == 'returned' and v not in own:
+                ctx.violation('C02 monitor on the implementation: synchronous call add(%d) returned %r, its own command returned %r '
+                              '(an earlier synchronous call of the same thread had timed out while its command was still pending)'
+                              % (x, v, own), {'kind': 'sync_timeout_probe', 'result': r}, found_input=True)
+                return
+            if how == 'raised' and 'Timeout' not in str(v) and kind == 'first':
+                ctx.violation('C02 monitor on the implementation: synchronous call add(%d) without ticks raised %r instead of Timeout'
+                              % (x, v), {'kind': 'sync_timeout_probe', 'result': r}, found_input=True)
+                return
+
+
+def correspondence(ctx):
+    sync_timeout_probe(ctx)
+    _corr(ctx)
